@@ -43,13 +43,32 @@ def via_fields_and_lists(root):
     return out
 
 
-def stamp(root, mod):
-    """Give every object of the input tree a recognisable position_info."""
+def stamp(root, mod, builder=None):
+    """Give every object of the input tree a recognisable position_info: its identity (path) in the tree."""
     n = 0
     for o in mod.visit(root):
         n += 1
-        o._metadata.position_info = ('span', n)
+        ident = builder.ident.get(id(o)) if builder is not None else None
+        o._metadata.position_info = ('span', tuple(ident) if ident is not None else n)
     return n
+
+
+def origins_of(v):
+    """The origin each object of a real result carries, in the shape of Objs!BottomUpO (4th component)."""
+    if isinstance(v, list):
+        return ['list', [origins_of(x) for x in v]]
+    if isinstance(v, tuple) and not hasattr(v, '_fields'):
+        return ['tuple', [origins_of(x) for x in v]]
+    if isinstance(v, dict):
+        return ['dict', [[k, origins_of(x)] for k, x in v.items()]]
+    if hasattr(v, '_fields') and hasattr(v, '_metadata'):
+        pi = getattr(v._metadata, 'position_info', None)
+        if pi is None:
+            org = ['own'] if len(v._metadata) else ['none']
+        else:
+            org = list(pi[1]) if isinstance(pi[1], tuple) else ['?', pi[1]]
+        return ['obj', type(v).__name__, [origins_of(getattr(v, f)) for f in type(v)._fields], org]
+    return strip_n(objcheck.expand(v))
 
 
 def meta_of(o):
@@ -64,7 +83,7 @@ def xform_worker(case):
         for cbs in cbvecs:
             b = objcheck.Builder(mod)
             root = b.build(t, [])
-            stamp(root, mod)
+            stamp(root, mod, b)
             before = objcheck.expand(root)
             before_meta = [(id(o), meta_of(o)) for o in mod.visit(root)]
             log = []
@@ -90,7 +109,8 @@ def xform_worker(case):
                 if cbs == ['AtoZ']:
                     got = [meta_of(o) for o in mod.visit(r)]
                     meta_ok = all(m is not None for m in got)
-                res.append(['ok', objcheck.expand(r), log, before == after and before_meta == after_meta, meta_ok])
+                res.append(['ok', objcheck.expand(r), log, before == after and before_meta == after_meta, meta_ok,
+                            origins_of(r)])
             except BaseException as e:  # noqa
                 res.append(['exc', type(e).__name__, str(e)[:150]])
         out.append(res)
@@ -152,6 +172,11 @@ def run(chk):
                                   {'tree': x['t'], 'cbs': y['cbs'], 'expected': want_log, 'observed': o[2]})
                 elif not o[3]:
                     chk.violation('the input tree was modified by transform | %s' % where, {'tree': x['t'], 'cbs': y['cbs']})
+                elif len(o) > 5 and o[5] != strip_n(y['origins']):
+                    chk.violation('position metadata of the result nodes: every result object must carry the metadata of '
+                                  'the node it stands for | %s | expected origins %s | observed %s'
+                                  % (where, strip_n(y['origins']), o[5]),
+                                  {'tree': x['t'], 'cbs': y['cbs'], 'expected': y['origins'], 'observed': o[5]})
                 elif o[4] is False:
                     chk.violation('result nodes are not the transformed ones / span metadata not carried over | %s' % where,
                                   {'tree': x['t'], 'cbs': y['cbs']})
